@@ -22,6 +22,19 @@ type c04mon struct {
 	h      hash.Hash
 	shadow []byte
 	hist   []string
+	// results belong to the caller: every slice a Sum returned, with a private copy of what it held
+	kept [][2][]byte
+}
+
+// checkKept: no later operation on the hash may change a result handed out earlier.
+func (m *c04mon) checkKept() {
+	for i, k := range m.kept {
+		if !bytes.Equal(k[0], k[1]) {
+			m.fail("earlier-sum-result-changed-by-later-operation", hk.D{"which_sum": i, "now": hk.Hex(k[0]), "returned": hk.Hex(k[1])})
+			m.kept = nil
+			return
+		}
+	}
 }
 
 func (m *c04mon) fail(kind string, d hk.D) {
@@ -45,7 +58,14 @@ func (m *c04mon) sum(prefix []byte, spare int) {
 	m.hist = append(m.hist, fmt.Sprintf("S%d+%d", len(prefix), spare))
 	in := make([]byte, len(prefix), len(prefix)+spare)
 	copy(in, prefix)
+	if len(prefix) == 0 && spare == 0 && len(m.hist)%2 == 0 {
+		in = nil // the usual call
+	}
 	out := m.h.Sum(in)
+	m.checkKept()
+	if len(m.kept) < 8 {
+		m.kept = append(m.kept, [2][]byte{out, append([]byte{}, out...)})
+	}
 	want := append(append([]byte{}, prefix...), ref.SM3(m.shadow)...)
 	if !bytes.Equal(out, want) {
 		m.fail("sum-wrong", hk.D{"msglen": len(m.shadow), "msg": hk.Hex(trunc(m.shadow)), "got": hk.Hex(out), "want": hk.Hex(want), "prefix": len(prefix), "spare": spare})
@@ -58,6 +78,7 @@ func (m *c04mon) sum(prefix []byte, spare int) {
 func (m *c04mon) reset() {
 	m.hist = append(m.hist, "R")
 	m.h.Reset()
+	m.checkKept()
 	m.shadow = m.shadow[:0]
 }
 
@@ -150,10 +171,38 @@ func TestVerifC04(t *testing.T) {
 			}
 		}
 		m.sum(nil, 0)
+		m.sum(nil, 0)
+		m.checkKept()
 		r.Eval(fmt.Sprintf("hist:final%%64=%d,ops=%s", len(m.shadow)%64, compress(pat)))
 		if i == 0 {
 			r.Sample(hk.D{"kind": "random-history", "history": m.hist})
 		}
+	}
+
+	// (2a) INDEPENDENT hash values in many goroutines at once (each goroutine owns its values; nothing is shared by the
+	// caller): histories and one-shot digests must come out as when run alone
+	{
+		nG := hk.N(4000, 40000)
+		hk.Parallel(nG, func(i int) {
+			lr := hk.NewRNG(hk.Seed(), fmt.Sprintf("c04par/%d", i))
+			msg := lr.Bytes(lr.Pick([]int{0, 1, 55, 56, 63, 64, 65, 119, 120, 200, 1000}) + lr.Intn(3))
+			want := ref.SM3(msg)
+			h := New()
+			cut := 0
+			if len(msg) > 0 {
+				cut = lr.Intn(len(msg) + 1)
+			}
+			h.Write(msg[:cut])
+			mid := h.Sum(nil)
+			h.Write(msg[cut:])
+			got := h.Sum(nil)
+			oneA := SumSM3(msg)
+			one := oneA[:]
+			if !bytes.Equal(got, want) || !bytes.Equal(one, want) || !bytes.Equal(mid, ref.SM3(msg[:cut])) {
+				r.Violation("digest-wrong-when-independent-hashes-run-concurrently", hk.D{"msglen": len(msg), "split": cut, "streaming": hk.Hex(got), "one_shot": hk.Hex(one), "want": hk.Hex(want)})
+			}
+		})
+		r.EvalN("hist:independent-values-concurrently", nG)
 	}
 
 	// (2b) INJECTED mid-message states: every chaining value is reachable in principle, but special ones
